@@ -63,6 +63,10 @@ CHECKS = {
    "Metamorphic: a table-free, pre-free grammar document and a source-level rewrite of it (whitespace-run substitution, adjacent comments, layout whitespace between block tags, span wrapping) must render byte-identically at every width when both render.",
    "Trusted: the rewriter only produces the rewrites the property names; Ok/TooNarrow disparity is counted, not asserted.",
    "property-based testing (proptest; metamorphic source rewrite)"),
+ "C16": ("exploration",
+   "A harness-defined TextDecorator family parameterised by 19 strings over ASCII / 2-byte width-1 / 3-byte width-2 / combining characters: totality and width bound on grammar documents (debug assertions on), compositionality of prefixed blocks with the prefix measured by display width (differential on sub-documents), and verbatim reproduction of affixes around identifying-character text (model of the expected character stream).",
+   "Trusted: display width = sum of unicode-width character widths; whitespace inside affixes not compared; the TrivialDecorator clause is decided by C03's trivial-decorator sub-checks.",
+   "property-based testing (proptest; generated decorators, compositional differential + stream model)"),
 }
 
 ORDER = ["C01","C02","C03","C04","C05","C06","C07","C08","C09","C10","C11","C12","C13","C14","C15","C16","C17","C18","C19","C20"]
